@@ -72,6 +72,8 @@ pub fn generate(opts: &Opts, sink: &mut CaseSink) {
         sink.push(format!("(CSeq {} {} {} {} {})", a.coq(), m.coq(), r.coq(), bs.coq(), out.coq()),
                   json!({"kind": "sequential path", "add": a, "mod": m, "repeat": r, "batches": format!("{:?}", bs), "impl_output": format!("{:?}", out)}), nd >= 3 && bs.len() >= 2);
     }
+    // random chains of the element-wise API operators in one block (Corr/ZooCorr.v)
+    crate::props::zoo::generate(&mut rng, sink, (if opts.thorough { 5000 } else { 600 }) / opts.scale);
     // whole sequential jobs through the real producer side (End + Batcher) and consumer side of
     // two block boundaries with one replica each, batch sizes below, at and ABOVE the default
     // 1024, input lengths around a multiple of the batch size
@@ -100,4 +102,4 @@ pub fn generate(opts: &Opts, sink: &mut CaseSink) {
     }
 }
 
-pub const RULE: &str = "reorder: random multi-round scripts, out-of-order timestamps above the last watermark, many ties, watermarks placed anywhere, untimestamped items and FlushBatch mixed in; sequential path: one producer stream cut into batches of size 1/2/3/unbounded (every batch mode is such a cutting) delivered to the real consumer-side Start followed by map/filter/flat_map; sequential jobs: stream_iter(0..n) -> map -> filter -> flat_map over two one-replica block boundaries, executed on the engine with fixed / adaptive batch sizes 1, 7, 1024, 2048, 4096 and n = size + 0/1/100/700, output compared IN ORDER. Non-trivial: >=3 data elements (and >=2 batches); distinct = distinct case terms";
+pub const RULE: &str = "operator zoo: chains of 1-5 operators drawn from map, filter, flat_map, filter_map, flatten, inspect, rich_map, rich_flat_map, rich_filter_map (plain and keyed), keyed flat_map / filter_map / flatten, key_by+unkey, add_timestamps (any multiplier / offset / lag: timestamps need not be monotone), drop_timestamps, built through the public API in one block and driven by multi-round scripts (timestamped with watermarks, or plain items; FlushBatch sprinkled), output compared element by element with the model and value by value with the iterator-chain oracle; reorder: random multi-round scripts, out-of-order timestamps above the last watermark, many ties, watermarks placed anywhere, untimestamped items and FlushBatch mixed in; sequential path: one producer stream cut into batches of size 1/2/3/unbounded (every batch mode is such a cutting) delivered to the real consumer-side Start followed by map/filter/flat_map; sequential jobs: stream_iter(0..n) -> map -> filter -> flat_map over two one-replica block boundaries, executed on the engine with fixed / adaptive batch sizes 1, 7, 1024, 2048, 4096 and n = size + 0/1/100/700, output compared IN ORDER. Non-trivial: >=3 data elements (and >=2 batches); distinct = distinct case terms";
